@@ -29,6 +29,7 @@ LEVEL_TEXT = ("Exploration by generated-input search with an outcome-validity or
               "query text, JSONPointer and RelativeJSONPointer construction, resolution, and JSONPatch construction and "
               "application may only raise their documented error family, str(error) must work, and each call must "
               "finish under a watchdog. Termination is sampled, not proved.")
+LEVEL_TEXT += ' The query probe evaluates through finditer, findall, match and query; the 41 shortest texts are probed on every panel document.'
 LEVEL_NOTE = ("Trusted: CPython, re, Hypothesis, atheris. Termination is a sampling argument (bounded sizes, per-case "
               "watchdog of 20 s re-checked alone with 60 s); time inside the regex engine on caller-supplied patterns "
               "and inputs nested deeper than 100 levels are outside the claim and not generated.")
